@@ -232,6 +232,25 @@ pub fn main(args: &[String]) -> i32 {
             }
         };
         let mut viol = viol;
+        // a verdict that rests on "nothing moves any more" (hang, lost wake-up, missed readiness) is re-examined on a slow or
+        // loaded machine: the actors are still frozen at their points, but what runs free (the kernel, event loops, helper
+        // threads) gets another 600 ms; if anything moves in that time the execution is inconclusive, not a violation
+        if matches!(out.end, End::Stuck(_)) && viol.iter().any(|v| matches!(v.kind.as_str(), "hang" | "missed_readiness" | "lost_wakeup" | "lost_timeout" | "stranded_waiter")) {
+            let c0 = ctl.change_count();
+            let t0 = std::time::Instant::now();
+            let mut moved = false;
+            while t0.elapsed() < std::time::Duration::from_millis(600) {
+                if ctl.change_count() != c0 {
+                    moved = true;
+                    break;
+                }
+                std::thread::sleep(std::time::Duration::from_millis(5));
+            }
+            if moved {
+                viol.retain(|v| !matches!(v.kind.as_str(), "hang" | "missed_readiness" | "lost_wakeup" | "lost_timeout" | "stranded_waiter"));
+                bump("inconclusive_late_progress");
+            }
+        }
         if let Some(p) = rt_panic {
             let kind = if p.starts_with("use after free") { "use_after_free" } else { "runtime_panic" };
             viol.insert(0, Violation { kind: kind.into(), detail: p });
